@@ -78,6 +78,8 @@ def results_for(d, lang, shape, focus, n, labels=0, alpha=None):
     from checks.c18 import _Again
     t1 = build(d, lang, shape, focus, n, labels, 'a', alpha=alpha)
     t2 = build(_Again(d), lang, shape, focus, n, labels + 1, 'a', heads=False, alpha=alpha, rotate=1)     # same tokens, other categories
+    for l1, l2 in zip(t1.leaves, t2.leaves):       # as the parser delivers them: the trees of one sentence hold the very same Token objects
+        l2.children[0] = l1.children[0]
     t3 = build(d, lang, SHAPES[1][1], (), 0, labels + 2, 'c', alpha=alpha)
     return [[ScoredTree(t1, -1.5), ScoredTree(t2, -2.25)], [ScoredTree(t3, -0.5)]], [(1, t1), (1, t2), (2, t3)]
 
